@@ -683,6 +683,19 @@ def check(ctx):
     ctx.check(bool(tests), "C10.R12", f"{bve.qualname}:empty-path", None, "an empty path no longer puts the message at the root", bve, bve.node, detail="`()` -> root message", nontrivial=False)
 
 
+def mock_presence_rule(ctx, rule):
+    """ValidatorMock: a deserialized value is returned whatever it is (presence = membership)."""
+    from ..pathcond import parents_of as _po14, path_condition as _pc14
+    model = ctx.model
+    mk = model.func("apischema.validation.mock.ValidatorMock.__getattribute__")
+    first_ret = min((n for n in walk_no_nested(mk.node) if isinstance(n, ast.Return) and n.value is not None), key=lambda n: n.lineno, default=None)
+    pm14 = _po14(mk.node)
+    cond14 = norm(_pc14(mk.node, first_ret, pm14)) if first_ret is not None else ""
+    ctx.check(first_ret is not None and cond14.replace("(", "").replace(")", "") == "name in values" and norm(first_ret.value) == "values[name]", rule, f"{mk.qualname}:presence", None,
+              f"the deserialized value is returned under `{cond14}` (value `{norm(first_ret.value) if first_ret is not None else '?'}`): a field whose value is None - an explicit null in the data - is taken for absent and the validator sees the field's default; its violation disappears from the report exactly when another field is invalid (one violation hides another)",
+              mk, first_ret or mk.node, detail="if name in values: return values[name]")
+
+
 def fixtures(ctx):
     src = "def f(xs, i=0):\n    for i, x in enumerate(xs):\n        f(xs[i:])\n        f(xs[i + 1:])\n"
     fn = ast.parse(src).body[0]
